@@ -361,19 +361,27 @@ impl Ctx {
   }
 
   fn known_findings(&self) -> Vec<(String, String)> {
-    let p = self.root.join("known_findings.json");
+    let mut files = vec![self.root.join("known_findings.json")];
+    if let Ok(rd) = std::fs::read_dir(self.root.join("findings.d")) {
+      let mut extra: Vec<PathBuf> = rd.flatten().map(|e| e.path()).filter(|p| p.extension().map(|x| x == "json").unwrap_or(false)).collect();
+      extra.sort();
+      files.extend(extra);
+    }
     let mut out = Vec::new();
-    if let Ok(txt) = std::fs::read_to_string(&p) {
-      if let Ok(v) = serde_json::from_str::<Value>(&txt) {
-        if let Some(arr) = v.get("findings").and_then(|a| a.as_array()) {
-          for f in arr {
-            if f.get("status").and_then(|s| s.as_str()) == Some("known")
-              && f.get("property").and_then(|s| s.as_str()) == Some(self.prop.as_str())
-            {
-              if let Some(sig) = f.get("signature").and_then(|s| s.as_str()) {
-                let what = f.get("what").and_then(|s| s.as_str()).unwrap_or("").to_string();
-                out.push((sig.to_string(), what));
-              }
+    for p in files {
+      let Ok(txt) = std::fs::read_to_string(&p) else { continue };
+      let Ok(v) = serde_json::from_str::<Value>(&txt) else {
+        eprintln!("warning: cannot parse {}", p.display());
+        continue;
+      };
+      if let Some(arr) = v.get("findings").and_then(|a| a.as_array()) {
+        for f in arr {
+          if f.get("status").and_then(|s| s.as_str()) == Some("known")
+            && f.get("property").and_then(|s| s.as_str()) == Some(self.prop.as_str())
+          {
+            if let Some(sig) = f.get("signature").and_then(|s| s.as_str()) {
+              let what = f.get("what").and_then(|s| s.as_str()).unwrap_or("").to_string();
+              out.push((sig.to_string(), what));
             }
           }
         }
